@@ -56,14 +56,24 @@ theorem fwrite_q_inside {e : Env} (hq : Quiet e) (b : Bytes) (s : FS) (h : s.pos
   | none => simp
   | some c => simp [hl]
 
+theorem readFull_q {e : Env} (hq : Quiet e) (n : Nat) (s : FS) (h : s.pos + n ≤ s.data.length) :
+    readFull n e s =
+      (.ok (readAt s.data s.pos n),
+       { data := s.data, pos := s.pos + n, ops := s.ops + 1, log := .read n :: s.log }) := by
+  have hl : (readAt s.data s.pos n).length = n := length_readAt _ _ _ h
+  have c1 : ¬ ((n : Int) < 0) := by omega
+  simp [readFull, bind_run, c1, hl, fread_q hq]
+
 theorem moveStep_q {e : Env} (hq : Quiet e) (a b n : Nat) (s : FS)
-    (h : b + (readAt s.data a n).length ≤ s.data.length) :
+    (hr : a + n ≤ s.data.length) (h : b + (readAt s.data a n).length ≤ s.data.length) :
     moveStep a b n e s =
       (.ok (), { data := writeData s.data b (readAt s.data a n), pos := b + (readAt s.data a n).length,
                  ops := s.ops + 4,
                  log := .write (readAt s.data a n).length :: .seek b :: .read n :: .seek a :: s.log }) := by
   unfold moveStep
-  simp only [bind_run, fseek_q hq, fread_q hq]
+  simp only [bind_run, fseek_q hq]
+  rw [readFull_q hq n _ (by simpa using hr)]
+  simp only
   rw [fwrite_q_inside hq _ _ (by simpa using h)]
 
 /-- "`m` started in `s` in environment `e` returns normally with file content `d`" -/
@@ -85,7 +95,7 @@ theorem moveFwdM_q {e : Env} (hq : Quiet e) (B : Nat) (hB : 0 < B) (dest src cou
     unfold RunsOk
     unfold moveFwdM
     simp only [h1, h2, ↓reduceDIte, bind_run]
-    rw [moveStep_q hq _ _ _ s (by rw [hrl, hs]; omega)]
+    rw [moveStep_q hq _ _ _ s (by rw [hs]; omega) (by rw [hrl, hs]; omega)]
     have hw : dest + moved ≤ s.data.length := by rw [hs]; omega
     have hl : (writeAt f (dest + moved) (readAt f (src + moved) this_move)).length = f.length := by
       apply length_writeAt
@@ -111,7 +121,7 @@ theorem moveBwdM_q {e : Env} (hq : Quiet e) (B : Nat) (hB : 0 < B) (dest src cou
     unfold RunsOk
     unfold moveBwdM
     simp only [h1, h2, ↓reduceDIte, bind_run]
-    rw [moveStep_q hq _ _ _ s (by rw [hrl, hs]; omega)]
+    rw [moveStep_q hq _ _ _ s (by rw [hs]; omega) (by rw [hrl, hs]; omega)]
     have hw : count + dest - this_move ≤ s.data.length := by rw [hs]; omega
     have hl : (writeAt f (count + dest - this_move) (readAt f (src + count - this_move) this_move)).length
         = f.length := by
